@@ -81,7 +81,7 @@ pub open spec fn sub_entry_ok(layout: LayoutMetadata, link_dir: Seq<char>, step:
             && out.name@ == step@,
     }
 }
-//@extract src/verifylib.rs fn:verify_sublayouts props=C15,C07,C08,C14
+//@extract src/verifylib.rs fn:verify_sublayouts props=C15,C06,C07,C08,C14
 //@fmt 2
 //@subst D20 /Path::new\(link_dir\)\.join\(&sub_link_dir\)/ => path_new_join(link_dir, &sub_link_dir)
 //@subst G2 /let mut steps_link_metadata = HashMap::new\(\);/ => let mut steps_link_metadata: HashMap<String, HashMap<KeyId, LinkMetadata>> = HashMap::new();
@@ -93,7 +93,7 @@ pub open spec fn sub_entry_ok(layout: LayoutMetadata, link_dir: Seq<char>, step:
         r is Ok ==> forall|step: String| #[trigger] chain_link_dict@.contains_key(step) ==>
             r->Ok_0@[step]@.dom() == chain_link_dict@[step]@.dom()
             && forall|k: KeyId| #[trigger] chain_link_dict@[step]@.contains_key(k) ==>
-                sub_entry_ok(*layout, link_dir@, step, k, chain_link_dict@[step]@[k], r->Ok_0@[step]@[k]),   // [C15,C07,C08]
+                sub_entry_ok(*layout, link_dir@, step, k, chain_link_dict@[step]@[k], r->Ok_0@[step]@[k]),   // [C15,C06,C07,C08]
 //@before /let mut steps_link_metadata/
     let ghost in0 = chain_link_dict@;
     proof { fact_string_ext(); fact_keyid_key_model(); fact_to_owned_keyid(); }
